@@ -72,7 +72,7 @@ def restored {δ : Type} (pre s : Db δ) : Db δ where
   idxVer := pre.idxVer
   ruv := s.ruv.map (fun kv => (kv.1, []))
   ranged := rangedOf (s.ruv.map (·.1))
-  maxid := pre.maxid
+  maxid := if rawWriteRefreshesMaxId then s.rows.length else pre.maxid
 
 /-- `backup` succeeds exactly when the three identifiers are stored -/
 theorem backup_ok_iff {δ : Type} (cur : Nat) (s : Db δ) :
@@ -93,7 +93,7 @@ theorem restore_of_backup_doc {δ : Type} (cur v : Nat) (ok : Bool) (s pre : Db 
     restore cur ok (some ⟨false, [(.version, .nat v), (.sUuid, .nat su), (.dUuid, .nat du), (.tsMax, .nat t),
       (.keys, .keys s.keys), (.replMeta, .cids (s.ruv.map (·.1))), (.entries, .ents (s.rows.map (·.2)))]⟩) pre =
       if v != cur then
-        ({ restored pre s with rows := [], ruv := [], ranged := [] }, .error .mismatchedVersion)
+        ({ restored pre s with rows := [], ruv := [], ranged := [], maxid := pre.maxid }, .error .mismatchedVersion)
       else (restored pre s, if ok then .ok () else .error .consistency) := by
   have hcl : classify (⟨false, [(.version, .nat v), (.sUuid, .nat su), (.dUuid, .nat du), (.tsMax, .nat t),
       (.keys, .keys s.keys), (.replMeta, .cids (s.ruv.map (·.1))), (.entries, .ents (s.rows.map (·.2)))]⟩ : Doc δ)
@@ -119,7 +119,7 @@ theorem restore_of_backup_doc {δ : Type} (cur v : Nat) (ok : Bool) (s pre : Db 
   · simp only [restore, Option.bind_some, hcl, restoreArm, Option.map_some, deleteAll, deleteAllSteps,
       List.foldl_cons, List.foldl_nil, deleteStep, applyWrites, Doc.get, aget, applySink, versionRefuse,
       restoreTail, ruvRestore, restored, rangedOf, h1, h2, h3]
-    simp [hv, hfst, hsnd', hmap, hext1, hext2, hext3]
+    simp [hv, hfst, hsnd', hmap, hext1, hext2, hext3, maxId_number]
   · simp only [restore, Option.bind_some, hcl, restoreArm, Option.map_some, deleteAll, deleteAllSteps,
       List.foldl_cons, List.foldl_nil, deleteStep, applyWrites, Doc.get, aget, applySink, versionRefuse,
       restoreTail, ruvRestore, restored, rangedOf, h1, h2, h3]
@@ -144,6 +144,18 @@ theorem restored_entries {δ : Type} (pre s : Db δ) :
     (restored pre s).rows.map (·.2) = s.rows.map (·.2) ∧
       (restored pre s).rows.map (·.1) = List.range' 1 s.rows.length := by
   simp [restored, number_payloads, number_ids, firstId]
+
+/-- the id cache follows the restored rows (repair of the stale id cache: before it the cache kept `pre`'s value,
+the next created entry took id `pre.maxid + 1` and replaced the restored entry of that id) -/
+theorem restored_id_cache {δ : Type} (pre s : Db δ) :
+    (restored pre s).maxid = s.rows.length ∧ ∀ r ∈ (restored pre s).rows, r.1 ≤ (restored pre s).maxid := by
+  have h : (restored pre s).maxid = s.rows.length := by simp [restored, rawWriteRefreshesMaxId]
+  refine ⟨h, ?_⟩
+  intro r hr
+  rw [h]
+  have := mem_number_id (l := s.rows.map (·.2)) (n := firstId) hr
+  simp only [firstId, List.length_map] at this
+  omega
 
 /-- identifiers, maximum change time and key handles are the original's -/
 theorem restored_ids {δ : Type} (pre s : Db δ) :
@@ -309,10 +321,14 @@ theorem restore_ok_imp_current_version {δ : Type} (cur : Nat) (ok : Bool) (doc 
             | ents k => simp [hg, noVersionRefused] at h
       | n + 6, hc => simp [restore, hc, restoreArm] at h
 
+/-- the result is the refusal `e` -/
+def RefusedWith (r : Except Err Unit) (e : Err) : Prop := r = Except.error e
+
 /-- a backup written by a server of another version is refused with `DB0001MismatchedRestoreVersion` -/
 theorem other_version_refused {δ : Type} (cur v : Nat) (ok : Bool) (s pre : Db δ) (d : Doc δ) (hv : v ≠ cur)
     (hk : (s.ruv.map (·.1)).Nodup) (hb : backup v s = .ok d) :
-    (restore cur ok (some d) pre).2 = .error .mismatchedVersion := by
+    RefusedWith (restore cur ok (some d) pre).2 .mismatchedVersion := by
+  unfold RefusedWith
   obtain ⟨h1, h2, h3⟩ := (backup_ok_iff v s).1 ⟨d, hb⟩
   obtain ⟨su, h1⟩ := Option.isSome_iff_exists.1 h1
   obtain ⟨du, h2⟩ := Option.isSome_iff_exists.1 h2
@@ -325,7 +341,7 @@ theorem other_version_refused {δ : Type} (cur v : Nat) (ok : Bool) (s pre : Db 
 
 /-- what does not deserialise is refused before anything is touched -/
 theorem unparseable_untouched {δ : Type} (cur : Nat) (ok : Bool) (pre : Db δ) :
-    restore cur ok none pre = (pre, .error .serdeJson) := rfl
+    (restore cur ok none pre).1 = pre ∧ RefusedWith (restore cur ok none pre).2 .serdeJson := ⟨rfl, rfl⟩
 
 /-- **a refused restore leaves the database as it was**: the caller commits only after `Ok` -/
 theorem refused_restore_leaves_db {δ : Type} (cur : Nat) (ok : Bool) (doc : Option (Doc δ)) (pre : Db δ)
@@ -554,6 +570,30 @@ theorem reopened_index_inv (m : List (Nat × IType)) (pre s s3 : Db δ)
       rw [hr]
       exact hinv.2 a it
 
+/-- … and the same holds in the restoring process itself, before any reopening (`restore_server_core` starts
+the server on the very backend it restored into): the id cache is already the restored maximum. -/
+theorem same_process_index_inv (m : List (Nat × IType)) (pre s s3 : Db δ)
+    (hidA : (s.rows.map (·.1)).Nodup) (hw : WFn (entsOf sview s))
+    (hre : reindexDb sview m (commitRestore pre (restored pre s)) = some s3) :
+    Inv (fun _ _ => False) (toBe sview m s3) := by
+  have h := (reopened_index_inv sview (fun _ => []) m pre s s3 hidA hw hre).1
+  have hs3 : s3.rows = number firstId (s.rows.map (·.2)) ∧ s3.maxid = s.rows.length := by
+    unfold reindexDb at hre
+    cases hbe : Kanidm.Index.reindex (toBe sview m (commitRestore pre (restored pre s))) with
+    | none => rw [hbe] at hre; simp at hre
+    | some be =>
+      rw [hbe] at hre
+      simp only [Option.map_some, Option.some.injEq] at hre
+      subst hre
+      exact ⟨rfl, (restored_id_cache pre s).1⟩
+  have heq : toBe sview m (reload (fun _ => []) s3) = toBe sview m s3 := by
+    simp only [toBe, reload, ruvRestore, BeState.mk.injEq, and_true, true_and]
+    rw [hs3.2, hs3.1]
+    have := maxId_number (s.rows.map (·.2))
+    simpa using this
+  rw [heq] at h
+  exact h
+
 /-- **every search answers as the original did**: a safe filter (C01) evaluated by `Backend::search` on the
 original — under any index tables that mirror its entries, any index metadata — and on the restored,
 reindexed, reopened database returns, whenever both return an answer rather than `ResourceLimit`, the same
@@ -709,7 +749,7 @@ example : ∃ d, backup 7 exA = .ok d ∧ (restore 7 true (some d) exPre).2 = .o
     (restore 7 true (some d) exPre).1.rows = [(1, 70), (2, 71), (3, 72)] ∧
     (restore 7 true (some d) exPre).1.ruv = [(⟨100, 11⟩, []), (⟨200, 11⟩, []), (⟨150, 13⟩, [])] ∧
     (restore 7 true (some d) exPre).1.ranged = [(11, [100, 200]), (13, [150])] ∧
-    (restore 7 true (some d) exPre).1.maxid = 4 := by
+    (restore 7 true (some d) exPre).1.maxid = 3 := by
   refine ⟨_, rfl, ?_⟩
   decide
 
